@@ -214,18 +214,22 @@ func init() {
 	hh := "trillian/ctfe/handlers.go"
 	xx := "x509/x509.go"
 	vv := "x509/verify.go"
+	// canonical vocabulary (extract/canon.go): `$CertValidationOpts` = the options parameter, `$elem0` = the first
+	// certificate of the parsed chain, `$var($CertValidationOpts.currentTime)` = the local that starts as currentTime,
+	// `$After` = the local holding the result of the `.After(…)` call
+	const O = "$CertValidationOpts"
 	leaf := map[string]string{
-		"cert.NotAfter":                  "t",
-		"naStart != nil":                 "start.isSome",
-		"naLimit != nil":                 "limit.isSome",
-		"*naStart":                       "(start.getD 0)",
-		"*naLimit":                       "(limit.getD 0)",
-		"validationOpts.acceptOnlyCA":    "acceptOnlyCA",
-		"validationOpts.rejectExpired":   "rejectExpired",
-		"validationOpts.rejectUnexpired": "rejectUnexpired",
-		"cert.IsCA":                      "isCA",
-		"now":                            "now",
-		"expired":                        "expired",
+		"$elem0.NotAfter":            "t",
+		O + ".notAfterStart != nil": "start.isSome",
+		O + ".notAfterLimit != nil": "limit.isSome",
+		"*" + O + ".notAfterStart":  "(start.getD 0)",
+		"*" + O + ".notAfterLimit":  "(limit.getD 0)",
+		O + ".acceptOnlyCA":         "acceptOnlyCA",
+		O + ".rejectExpired":        "rejectExpired",
+		O + ".rejectUnexpired":      "rejectUnexpired",
+		"$elem0.IsCA":               "isCA",
+		"$var(" + O + ".currentTime)": "now",
+		"$After":                     "expired",
 	}
 	csf := map[string]string{
 		"parent.Version":               "parentVersion",
@@ -248,27 +252,38 @@ func init() {
 	}
 	register(genFile{name: "ChainCheck", imports: []string{"CTV.Basic.I64", "CTV.Basic.Bits"}, units: []unit{
 		// ---- ValidateChain: leaf filters
-		{"naStartFails", condKernel(cc, "ValidateChain", []string{"naStart"}, "naStartFails", "(t : Int) (start : Option Int)", Spec{Kind: "i64", Repl: leaf})},
-		{"naLimitFails", condKernel(cc, "ValidateChain", []string{"naLimit"}, "naLimitFails", "(t : Int) (limit : Option Int)", Spec{Kind: "i64", Repl: leaf})},
-		{"acceptOnlyCAFails", condKernel(cc, "ValidateChain", []string{"validationOpts.acceptOnlyCA"}, "acceptOnlyCAFails", "(acceptOnlyCA isCA : Bool)", Spec{Kind: "i64", Repl: leaf})},
-		{"expired", assignKernel(cc, "ValidateChain", "expired", "expired", "(now t : Int)", "Bool", Spec{Kind: "i64", Repl: leaf})},
-		{"rejectExpiredFails", condKernel(cc, "ValidateChain", []string{"validationOpts.rejectExpired"}, "rejectExpiredFails", "(rejectExpired expired : Bool)", Spec{Kind: "i64", Repl: leaf})},
-		{"rejectUnexpiredFails", condKernel(cc, "ValidateChain", []string{"validationOpts.rejectUnexpired"}, "rejectUnexpiredFails", "(rejectUnexpired expired : Bool)", Spec{Kind: "i64", Repl: leaf})},
-		{"verifyOpts", literalFlags(cc, "ValidateChain", "x509.VerifyOptions", "verifyOpts")},
-		{"validateChainOrder", checkOrder(cc, "ValidateChain", "validateChainOrder", [][2]string{
-			{"parse", "x509.ParseCertificate"}, {"notAfterStart", "naStart != nil"}, {"notAfterLimit", "naLimit != nil"},
-			{"acceptOnlyCA", "validationOpts.acceptOnlyCA"}, {"rejectExpired", "validationOpts.rejectExpired"},
-			{"rejectUnexpired", "validationOpts.rejectUnexpired"}, {"rejectExtIds", "len(validationOpts.rejectExtIds)"},
-			{"extKeyUsages", "len(validationOpts.extKeyUsages)"}, {"verify", "cert.Verify("}, {"chainsEquivalent", "chainsEquivalent("}})},
+		{"naStartFails", semCond(cc, "ValidateChain", []string{O + ".notAfterStart"}, "naStartFails", "(t : Int) (start : Option Int)", Spec{Kind: "i64", Repl: leaf})},
+		{"naLimitFails", semCond(cc, "ValidateChain", []string{O + ".notAfterLimit"}, "naLimitFails", "(t : Int) (limit : Option Int)", Spec{Kind: "i64", Repl: leaf})},
+		{"acceptOnlyCAFails", semCond(cc, "ValidateChain", []string{O + ".acceptOnlyCA"}, "acceptOnlyCAFails", "(acceptOnlyCA isCA : Bool)", Spec{Kind: "i64", Repl: leaf})},
+		{"expired", semAssign(cc, "ValidateChain", []string{".After($elem0.NotAfter)"}, "expired", "(now t : Int)", "Bool", Spec{Kind: "i64", Repl: leaf})},
+		{"rejectExpiredFails", semCond(cc, "ValidateChain", []string{O + ".rejectExpired"}, "rejectExpiredFails", "(rejectExpired expired : Bool)", Spec{Kind: "i64", Repl: leaf})},
+		{"rejectUnexpiredFails", semCond(cc, "ValidateChain", []string{O + ".rejectUnexpired"}, "rejectUnexpiredFails", "(rejectUnexpired expired : Bool)", Spec{Kind: "i64", Repl: leaf})},
+		{"verifyOpts", semLiteralFlags(cc, "ValidateChain", "x509.VerifyOptions", "verifyOpts")},
+		{"validateChainOrder", semOrder(cc, "ValidateChain", "validateChainOrder", [][2]string{
+			{"parse", "x509.ParseCertificate("}, {"notAfterStart", O + ".notAfterStart != nil"}, {"notAfterLimit", O + ".notAfterLimit != nil"},
+			{"acceptOnlyCA", O + ".acceptOnlyCA"}, {"rejectExpired", O + ".rejectExpired"},
+			{"rejectUnexpired", O + ".rejectUnexpired"}, {"rejectExtIds", "len(" + O + ".rejectExtIds)"},
+			{"extKeyUsages", "len(" + O + ".extKeyUsages)"}, {"verify", "$elem0.Verify("}, {"chainsEquivalent", "chainsEquivalent("}})},
 		// ---- chainsEquivalent
-		{"chainsLenMismatch", condKernel(cc, "chainsEquivalent", []string{"len(inChain)"}, "chainsLenMismatch", "(n m : Int)",
-			Spec{Kind: "i64", Repl: map[string]string{"len(inChain)": "n", "len(verifiedChain)": "m"}})},
+		{"chainsLenMismatch", semReach(cc, "chainsEquivalent", "func",
+			func(r canonReturn) bool { return !r.inLoop && len(r.results) == 1 && r.results[0] == "false" }, nil,
+			"chainsLenMismatch", "(n m : Int)",
+			Spec{Kind: "i64", Repl: map[string]string{"len($[]*x509.Certificate#0)": "n", "len($[]*x509.Certificate#1)": "m"}})},
 		// ---- IsPrecertificate / verifyAddChain
-		{"poisonInvalid", condKernel(cc, "IsPrecertificate", []string{"ext.Critical"}, "poisonInvalid", "(critical valueIsNull : Bool)",
-			Spec{Kind: "i64", Repl: map[string]string{"ext.Critical": "critical", "bytes.Equal(asn1.NullBytes, ext.Value)": "valueIsNull"}})},
+		{"poisonInvalid", semReach(cc, "IsPrecertificate", "loop",
+			func(r canonReturn) bool { return r.inLoop && len(r.results) == 2 && r.results[0] == "false" && r.results[1] != "nil" }, nil,
+			"poisonInvalid", "(critical valueIsNull : Bool)",
+			Spec{Kind: "i64", Repl: map[string]string{
+				"x509.OIDExtensionCTPoison.Equal($range($*x509.Certificate.Extensions)#1.Id)": "true",
+				"$range($*x509.Certificate.Extensions)#1.Critical":                             "critical",
+				"bytes.Equal(asn1.NullBytes, $range($*x509.Certificate.Extensions)#1.Value)":   "valueIsNull"}})},
 		{"poisonLoop", loopShape(cc, "IsPrecertificate", "poisonLoop")},
-		{"kindMismatch", condKernel(hh, "verifyAddChain", []string{"isPrecert", "expectingPrecert"}, "kindMismatch", "(isPrecert expectingPrecert : Bool)",
-			Spec{Kind: "i64", Repl: map[string]string{"isPrecert": "isPrecert", "expectingPrecert": "expectingPrecert"}})},
+		{"kindMismatch", semReach(hh, "verifyAddChain", "func",
+			func(r canonReturn) bool {
+				return len(r.results) == 2 && r.results[0] == "nil" && strings.Contains(r.results[1], "mismatch")
+			}, []string{"$IsPrecertificate"},
+			"kindMismatch", "(isPrecert expectingPrecert : Bool)",
+			Spec{Kind: "i64", Repl: map[string]string{"$IsPrecertificate": "isPrecert", "$bool": "expectingPrecert"}})},
 		// ---- x509.CheckSignatureFrom
 		{"keyUsageCertSign", iotaConst(xx, "KeyUsageCertSign", "keyUsageCertSign")},
 		{"csfConstraintFails", condKernel(xx, "Certificate.CheckSignatureFrom", []string{"parent.Version"}, "csfConstraintFails",
